@@ -132,6 +132,10 @@ def ite(c, a, b):
         return b
     if a == b:
         return a
+    if a == TRUE and b == FALSE:
+        return c                      # c ? true : false
+    if a == FALSE and b == TRUE:
+        return lnot(c)                # c ? false : true
     return ('ite', c, a, b)
 
 
